@@ -590,86 +590,14 @@ Proof. induction t as [|[a c] r IH]; [reflexivity|]. cbn [map combine fst snd]. 
 Lemma restore_bytes (b B : list N) eoh :
   (forall o, eoh <= o -> skipn (N.to_nat o) b = skipn (N.to_nat (o - eoh)) B) ->
   forall (t : list (key * list N)) el,
-    Forall2 (fun so d => placed eoh B d (snd so)) el (map snd t) ->
-    map (fun kv => (fst kv, sub_bytes b (snd kv)))
+    Forall2 (fun (so : list N * N) (d : list N) => placed eoh B d (snd so)) el (map snd t) ->
+    map (fun kv : key * (N * N) => (fst kv, sub_bytes b (snd kv)))
         (combine (map fst t) (combine (map snd el) (lens (map snd t)))) = t.
 Proof.
   intros Hsplit t. induction t as [|[k d] r IH]; intros el H; [reflexivity|].
   destruct el as [|[st o] el']; [inversion H|].
   cbn [map snd] in H. apply Forall2_cons_inv in H. destruct H as [(P1 & P2 & P3) H].
-  cbn [map fst snd lens combine]. rewrite (IH el' H). f_equal. f_equal.
+  unfold lens. cbn [map fst snd combine]. fold (lens (map snd r)). rewrite (IH el' H). f_equal. f_equal.
   unfold sub_bytes. cbn [fst snd]. rewrite Nat2N.id. rewrite (Hsplit o P1). exact P3.
 Qed.
 
-Definition total_len (t : list (key * list N)) : N := N.of_nat (length (flat_map snd t)).
-
-Lemma table_roundtrip_lemma (t : list (key * list N)) :
-  keys_sorted (map fst t) = true ->
-  Forall wf_entry t ->
-  N.of_nat (length t) <= 65535 ->
-  4 + 8 * N.of_nat (length t) + total_len t < u32 ->
-  exists b, M_encode_table t = Ok b /\ M_decode_table_bytes b = Ok t /\
-            N.of_nat (length b) <= 4 + 8 * N.of_nat (length t) + total_len t.
-Proof.
-  intros Hks Hwf Hn Hsz. unfold total_len in *.
-  set (n := N.of_nat (length t)) in *.
-  set (eoh := 4 + 8 * n).
-  assert (Hne : Forall (fun kd => snd kd <> []) t).
-  { eapply Forall_impl; [|exact Hwf]. intros [[[p e] l] d] (_ & _ & H10 & _). cbn [snd].
-    intros ->. cbn [length] in H10. lia. }
-  destruct (enc_offsets_ok eoh t [] eoh) as (ext & E1 & E2 & E3 & E4).
-  { cbn. lia. } { cbn. unfold blen, body. cbn. lia. } { exact Hne. }
-  cbn [app] in E1, E2, E3, E4.
-  assert (Hbl0 : blen [] = 0) by reflexivity. rewrite Hbl0 in E4.
-  pose proof (ext_ok_length eoh ext [] (map snd t) E2) as Lext. rewrite map_length in Lext.
-  unfold M_encode_table. fold n. replace ((4 + 8 * n) mod u32) with eoh by (subst eoh; unfold u32 in *; lia).
-  destruct (enc_offsets [] eoh t) as [ext0 pos] eqn:Eo. cbn [fst snd] in E1, E3. subst ext0 pos.
-  replace (eoh + blen ext <? eoh) with false by lia.
-  set (R := flat_map rec_bytes (combine (map fst t) ext)).
-  set (B := flat_map fst ext).
-  assert (LR : length R = (8 * length t)%nat).
-  { subst R. rewrite (length_flat_map_const rec_bytes 8) by apply rec_bytes_length.
-    rewrite combine_length, map_length. lia. }
-  set (b := [0; 0] ++ be16 n ++ R ++ B).
-  assert (Lb : N.of_nat (length b) = eoh + N.of_nat (length B)).
-  { subst b eoh. rewrite !app_length, be16_length, LR. cbn [length]. subst n. lia. }
-  assert (HB : N.of_nat (length B) = blen ext) by reflexivity.
-  exists b. split; [reflexivity|].
-  assert (Hsplit : forall o, eoh <= o -> skipn (N.to_nat o) b = skipn (N.to_nat (o - eoh)) B).
-  { intros o Ho. subst b.
-    change ([0; 0] ++ be16 n ++ R ++ B) with (([0; 0] ++ be16 n ++ R) ++ B).
-    rewrite skipn_app. rewrite skipn_all2.
-    - cbn [app]. f_equal. rewrite !app_length, be16_length, LR. cbn [length]. subst eoh n. lia.
-    - rewrite !app_length, be16_length, LR. cbn [length]. subst eoh n. lia. }
-  split; [|lia].
-  (* decoding *)
-  unfold M_decode_table_bytes, M_decode_table.
-  replace ((N.of_nat (length b) <? 4) || (4294967295 <? N.of_nat (length b))) with false
-    by (unfold u32 in *; lia).
-  assert (G0 : get16 b 0 = Ok 0) by reflexivity.
-  assert (G2 : get16 b 2 = Ok n).
-  { assert (H : skipn (N.to_nat 2) b = (n / 256) mod 256 :: n mod 256 :: R ++ B) by reflexivity.
-    rewrite (get16_of_skipn b 2 _ _ _ H). f_equal. lia. }
-  rewrite G0. cbn [obind N.eqb negb]. rewrite G2. cbn [obind].
-  fold eoh. replace (N.of_nat (length b) <? eoh) with false by lia.
-  replace (eoh mod u32) with eoh by (unfold u32 in *; lia).
-  replace (N.of_nat (length b) mod u32) with (N.of_nat (length b)) by (unfold u32 in *; lia).
-  replace (N.to_nat n) with (length ext) by (subst n; lia).
-  destruct (ext_ok_placed eoh ext [] (map snd t) E2) as [_ Hpl].
-  { intros d o []. }
-  { rewrite Forall_map. exact Hne. }
-  cbn [app] in Hpl. fold B in Hpl.
-  rewrite (dec_records_enc b B eoh ltac:(lia) Hsplit Lb ext (map fst t) (map snd t) [] 0 [] B).
-  - cbn [obind snd app]. unfold omap, obind. f_equal.
-    apply (restore_bytes b B eoh Hsplit t ext Hpl).
-  - rewrite map_length. lia.
-  - rewrite map_length. lia.
-  - reflexivity.
-  - reflexivity.
-  - exact E2.
-  - cbn. lia.
-  - exact Hpl.
-  - rewrite combine_fst_snd. exact Hwf.
-  - constructor.
-  - exact Hks.
-Qed.
